@@ -18,9 +18,19 @@ self._lock_updates(key)`): a blocked acquisition has succeeded or raised before 
 attempt is pending when the block is left.
 
 Failures come from a **fault oracle** `fails : Nat → Bool` on the global index of backend commands:
-every command sent to a real backend bumps `counter`, is logged, and raises `Err.fault idx` *instead of
+every command sent to a real backend bumps `counter`, is logged, and raises `Err.fault idx kind` *instead of
 being executed* iff `fails idx` (a failing command has no effect on the backend: the "connection error"
-reading of "a backend command fails").
+reading of "a backend command fails").  The exception carries its **kind** (`base : Nat → Bool` of the oracle):
+an `Exception` (connection error, ...) or a `BaseException` that is not an `Exception` — `asyncio.CancelledError`,
+which is how a backend command cut short by `asyncio.timeout()` / `wait_for` / a cancelled task ends on
+Python ≥ 3.11.  The handlers of the real code tell the two apart and so does the model:
+  * `Transaction.commit`:   `except BaseException: await self._rollback(backends); raise`   — both kinds
+  * `Transaction._rollback`: `except Exception as exc: error = error or exc` / `except BaseException as exc: interrupt =
+                            interrupt or exc` … `if interrupt: raise interrupt`   — both kinds are passed over, every backend is
+                            rolled back, the first BaseException is re-raised at the end (repair 12f0cbb, D36; before it a
+                            BaseException LEFT the loop: `cfg.rbAll = false` keeps that old loop for the record)
+  * `__aexit__`, `LockTransactionBackend.commit/rollback`: `try … finally`                  — both kinds
+  * `asyncio.gather` in `_unlock_updates`: the awaiter gets the first exception, whatever its kind
 
 State that survives a raised exception survives here too: `M α = FWorld → Res α × FWorld` returns the
 world reached at the point of the raise (Python side effects are not rolled back by an exception).
@@ -49,12 +59,24 @@ inductive Mode where
   | fast | locked | serializable
   deriving DecidableEq, Repr
 
+/-- the two classes of Python exceptions a handler can tell apart -/
+inductive Kind where
+  | exception        -- an `Exception`: caught by `except Exception` (and by `except BaseException`)
+  | baseException    -- a `BaseException` that is no `Exception` (`asyncio.CancelledError`, …): `except Exception` lets it through
+  deriving DecidableEq, Repr
+
 /-- what the caller of the block can see raised -/
 inductive Err where
-  | fault (idx : Nat)   -- the exception injected into backend command number `idx`
-  | locked              -- `LockedError("probably deadlock or long running transactions")`
-  | body                -- the body's own exception
+  | fault (idx : Nat) (kind : Kind)   -- the exception injected into backend command number `idx`, with its kind
+  | locked              -- `LockedError("probably deadlock or long running transactions")` (an `Exception`)
+  | body                -- the body's own exception (of either kind: no handler of the modelled code ever catches it —
+                        --  `__aexit__` only looks at `exc_tb` — so its kind is not recorded)
   deriving DecidableEq, Repr
+
+/-- does `except Exception` let it through?  (asked only about what `tx_backend.rollback()` can raise: faults) -/
+def Err.isBase : Err → Bool
+  | .fault _ .baseException => true
+  | _ => false
 
 inductive Res (α : Type) where
   | ok (a : α)
@@ -140,6 +162,14 @@ structure Cfg where
   fails : Nat → Bool            -- the fault oracle
   stepDt : Nat                  -- how much of the clock one `asyncio.sleep(step)` of the wait loop takes (any amount)
   env : Nat → List (Nat × Nat)  -- the environment: foreign locks (backend, lock key) released just before command `i`
+  base : Nat → Bool             -- the kind of the exception a failing command `i` raises: true = BaseException only (cancellation)
+  rbAll : Bool := true          -- the loop of `Transaction._rollback`: true (the default) = as in /repo since 12f0cbb: every
+                                --  backend is rolled back, a BaseException is re-raised at the end; false = the OLD loop
+                                --  (`except Exception` only: a BaseException left the loop) — kept only for the remark
+                                --  theorem `old_rollback_loop_left_locks` of Props/C16.lean
+
+/-- the kind of the exception command `i` raises if it is made to fail -/
+def Cfg.kindAt (cfg : Cfg) (i : Nat) : Kind := if cfg.base i then .baseException else .exception
 
 /-! ### the monad -/
 
@@ -228,7 +258,7 @@ def backendCmd (cfg : Cfg) (b : Nat) (c : BCmd) : M Reply := fun w =>
   let i := w.counter
   let bad := cfg.fails i
   let w1 := { w with counter := i + 1, log := w.log ++ [⟨i, b, c, bad⟩], locks := envRel (cfg.env i) w.locks }
-  if bad then (.err (.fault i), w1)
+  if bad then (.err (.fault i (cfg.kindAt i)), w1)
   else
     match applyCmd b c w1 with
     | (r, w2) => (.ok r, w2)
@@ -443,31 +473,52 @@ def rollbackOne (cfg : Cfg) (t : TxB) : M Unit := tryFinally (M.pure ()) (unlock
 
 /-! ### `Transaction.commit / rollback / _rollback` -/
 
-/-- `_rollback(backends)`: every backend is rolled back, `except Exception` keeps going; the first error is returned -/
-def rollbackList (cfg : Cfg) : List TxB → FWorld → Option Err × FWorld
-  | [], w => (none, w)
+/-- `_rollback(backends)`:
+```
+error = None; interrupt = None
+for tx_backend in backends:
+    try: await tx_backend.rollback()
+    except Exception as exc: error = error or exc
+    except BaseException as exc: interrupt = interrupt or exc
+if interrupt: raise interrupt
+return error
+```
+every backend is rolled back whatever fails; the first BaseException is re-raised at the end (`.err e`), otherwise the first
+`Exception` is returned (`.ok (some e)`).
+With `cfg.rbAll = false`: the loop as it was before 12f0cbb — `except Exception` only, a BaseException left the loop and
+the backends after it were not rolled back. -/
+def rollbackList (cfg : Cfg) : List TxB → FWorld → Res (Option Err) × FWorld
+  | [], w => (.ok none, w)
   | t :: rest, w =>
     match rollbackOne cfg t w with
-    | (r, w1) =>
-      match rollbackList cfg rest w1 with
-      | (e2, w2) =>
-        match r with
-        | .err e => (some e, w2)
-        | .ok _ => (e2, w2)
+    | (.ok _, w1) => rollbackList cfg rest w1
+    | (.err e, w1) =>
+      if e.isBase then
+        if cfg.rbAll then (.err e, (rollbackList cfg rest w1).2) else (.err e, w1)
+      else
+        match rollbackList cfg rest w1 with
+        | (.ok _, w2) => (.ok (some e), w2)
+        | (.err e', w2) => (.err e', w2)
 
-/-- `Transaction.commit`: pop and commit backend by backend; on a failure roll back the remaining ones, re-raise -/
+/-- `Transaction.commit`: pop and commit backend by backend; `except BaseException:` (a failure of either kind)
+`await self._rollback(backends)` — the remaining ones; what it returns is dropped — `raise` (the commit's exception);
+an exception that leaves `_rollback` propagates instead -/
 def commitLoop (cfg : Cfg) : List TxB → M Unit
   | [] => M.pure ()
   | t :: rest => fun w =>
     match commitOne cfg t w with
     | (.ok _, w1) => commitLoop cfg rest w1
-    | (.err e, w1) => (.err e, (rollbackList cfg rest w1).2)
+    | (.err e, w1) =>
+      match rollbackList cfg rest w1 with
+      | (.ok _, w2) => (.err e, w2)
+      | (.err e', w2) => (.err e', w2)
 
 /-- `Transaction.rollback`: `error = await self._rollback(all); if error: raise error` -/
 def txRollback (cfg : Cfg) (ts : List TxB) : M Unit := fun w =>
   match rollbackList cfg ts w with
-  | (some e, w1) => (.err e, w1)
-  | (none, w1) => (.ok (), w1)
+  | (.ok (some e), w1) => (.err e, w1)
+  | (.ok none, w1) => (.ok (), w1)
+  | (.err e, w1) => (.err e, w1)
 
 /-! ### the block -/
 
